@@ -47,11 +47,11 @@ def run(ck, rng):
             else:
                 first = ct.split(b"/")[0]
                 pre = [(first, "f")]
-        vname = rng.choice(["md", "md_dep", "root"])
+        vname = rng.choice(["md", "md_dep", "root", "root", "root_dep"])
         if scen == "long_name":
-            nfirst = len(merged_items(items)[0]) if vname == "root" else len(items)
+            nfirst = len(merged_items(items)[0]) if vname.startswith("root") else len(items)
             j = rng.randrange(min(nfirst, len(items)))
-            if vname == "root":
+            if vname.startswith("root"):
                 # position j of the first root's merged listing: rebuild from that listing
                 items = merged_items(items)[0] + [it for r in merged_items(items)[1:] for it in r]
             items = list(items)
@@ -64,10 +64,11 @@ def run(ck, rng):
                     ("md_dep", "md,0,%s,%s,-,-,-,-,%s" % (exts_plus(exts), hx(target), hx(doc)))]
         first_root = merged_items(items)[0]
         variants.append(("root", ";".join(canonical_build(first_root) + ["M,0,0,%s,%s,-,-,-,-" % (exts_plus(exts), hx(target))])))
+        variants.append(("root_dep", ";".join(canonical_build(first_root) + ["Md,0,0,%s,%s,-,-,-,-" % (exts_plus(exts), hx(target))])))
         name, op = [v for v in variants if v[0] == vname][0]
         if rng.random() < 0.12:
             op += "," + rng.choice("jyt")
-        its = first_root if name == "root" else flat
+        its = first_root if name.startswith("root") else flat
         cases.append(("mhist " if massive else "hist ") + "F,%s;%s" % (snap_arg(pre), op))
         meta.append((name + ("_massive" if massive else ""), its, exts, target, scen, pre))
     impl, _ = run_impl(exe, cases)
